@@ -17,6 +17,7 @@ func (m SortedMap) Len() int {
 }
 
 func (m SortedMap) Get(k *lisp.LVal) (*lisp.LVal, bool) {
+	k = nameKey(k)
 	if k.Type != lisp.LString {
 		return lisp.Errorf("sorted-map decoded from json cannot hold key with type %s", lisp.GetType(k)), false
 	}
@@ -28,6 +29,7 @@ func (m SortedMap) Get(k *lisp.LVal) (*lisp.LVal, bool) {
 }
 
 func (m SortedMap) Del(k *lisp.LVal) *lisp.LVal {
+	k = nameKey(k)
 	if k.Type != lisp.LString {
 		return lisp.Errorf("sorted-map decoded from json cannot hold key with type %s", lisp.GetType(k))
 	}
@@ -36,11 +38,23 @@ func (m SortedMap) Del(k *lisp.LVal) *lisp.LVal {
 }
 
 func (m SortedMap) Set(k *lisp.LVal, v *lisp.LVal) *lisp.LVal {
+	k = nameKey(k)
 	if k.Type != lisp.LString {
 		return lisp.Errorf("sorted-map decoded from json cannot hold key with type %s", lisp.GetType(k))
 	}
 	m[k.Str] = v
 	return lisp.Nil()
+}
+
+// nameKey lets a symbol address the entry its name spells.  A sorted-map
+// identifies a key by its name whether it is given as a string or as a symbol
+// (docs/lang.md), and a map decoded from JSON is a sorted-map like any other:
+// (get (json:load-string "{\"a\": 1}") 'a) is 1, not an error.
+func nameKey(k *lisp.LVal) *lisp.LVal {
+	if k.Type == lisp.LSymbol {
+		return lisp.String(k.Str)
+	}
+	return k
 }
 
 func (m SortedMap) Entries(cells []*lisp.LVal) *lisp.LVal {
